@@ -220,10 +220,25 @@ func (eng *Engine) assumeGlobalInvs(vc *VC, fn *ssa.Function, st *State) {
 	}
 }
 
+// propParts: a property that is decided by composing the contracts of other
+// properties selects their obligations as well.  C08 (transcoding preserves
+// the value) = every parser reports the value its format assigns to the bytes
+// (C04 C05 C06) + every encoder writes bytes denoting the event's value (C07)
+// + event streams are well formed and extended events mean their expansion
+// (C09 C10); the composition itself is a paper lemma (DESIGN.md).
+var propParts = map[string][]string{
+	"C08": {"C04", "C05", "C06", "C07", "C09", "C10"},
+}
+
 func hasProp(props []string, p string) bool {
 	for _, x := range props {
 		if x == p {
 			return true
+		}
+		for _, part := range propParts[p] {
+			if x == part {
+				return true
+			}
 		}
 	}
 	return false
